@@ -11,7 +11,7 @@ Open Scope nat_scope.
 (* ---- metadata: a flat list of dictionaries; a dictionary may carry a
         reference counter (its id is the dictionary's id) ------------------ *)
 Record mdi := { mid : nat; mref : bool }.
-Definition md := list mdi.
+Notation md := (list mdi) (only parsing).
 
 Definition mdi_eqb (a b : mdi) := Nat.eqb (mid a) (mid b) && Bool.eqb (mref a) (mref b).
 
